@@ -2,7 +2,7 @@
 # Build a demo against /repo's current sources (all library sources compiled with -D_GLIBCXX_ASSERTIONS so that
 # out-of-range container accesses abort) and run it. usage: run_demo.sh <demo.cc> [repo]   exit: the demo's exit code
 set -e
-DEMO="$1"; REPO="${2:-/repo}"; HERE="$(cd "$(dirname "$0")" && pwd)"
+DEMO="$1"; REPO="${2:-/repo}"; SAN=""; [ -n "$ASAN" ] && SAN="-fsanitize=address -fno-omit-frame-pointer"; HERE="$(cd "$(dirname "$0")" && pwd)"
 OUT="$(mktemp -d)"; trap 'rm -rf "$OUT"' EXIT
 mkdir -p "$OUT/inc/OpenVolumeMesh/Config"
 cp "$HERE/../../build/inc/OpenVolumeMesh/Config/"*.hh "$OUT/inc/OpenVolumeMesh/Config/" 2>/dev/null || cp "$REPO/_build/src/OpenVolumeMesh/Config/"*.hh "$OUT/inc/OpenVolumeMesh/Config/"
@@ -10,10 +10,10 @@ grep -o 'OpenVolumeMesh/[A-Za-z0-9_/]*\.cc' "$REPO/src/CMakeLists.txt" | sort -u
 N=0
 for f in $(cat "$OUT/list"); do
   N=$((N+1))
-  g++ -std=c++17 -O1 -g -DNDEBUG -D_GLIBCXX_ASSERTIONS -w -I"$REPO/src" -I"$OUT/inc" -c "$REPO/src/$f" -o "$OUT/o$N.o" &
+  g++ -std=c++17 -O1 -g -DNDEBUG -D_GLIBCXX_ASSERTIONS $SAN -w -I"$REPO/src" -I"$OUT/inc" -c "$REPO/src/$f" -o "$OUT/o$N.o" &
   [ $((N % 16)) -eq 0 ] && wait
 done
 wait
-g++ -std=c++17 -O1 -g -DNDEBUG -D_GLIBCXX_ASSERTIONS -w -I"$REPO/src" -I"$OUT/inc" -I"$HERE" "$DEMO" "$OUT"/o*.o -o "$OUT/demo"
+g++ -std=c++17 -O1 -g -DNDEBUG -D_GLIBCXX_ASSERTIONS $SAN -w -I"$REPO/src" -I"$OUT/inc" -I"$HERE" "$DEMO" "$OUT"/o*.o -o "$OUT/demo"
 set +e
 "$OUT/demo"; echo "demo exit code: $?"
